@@ -51,6 +51,12 @@ theorem cur_lock_free : ∀ s, Reach Skeleton.current s → s.lockHolder = none 
     cases a <;> simp only [step] at hs
     all_goals (repeat' split at hs) <;> (try simp at hs) <;> (try subst hs) <;> (try simp_all)
 
+/-- The atomic steps of M1 are what the source does: every broadcaster operation is a single
+    critical section (checked against the regenerated skeleton).  All theorems below are about
+    the model under this reading of the code. -/
+theorem C19_model_atomicity : Atomic Skeleton.current :=
+  ⟨by decide, by decide, by decide, by decide, by decide, by decide, by decide, by decide⟩
+
 /-! ### C19 -/
 
 /-- No interleaving of publish / receive / free / close / cancel panics (send on a closed
@@ -214,6 +220,7 @@ theorem C19_fails_on_pinned : ∃ acts, (run Skeleton.pinned init acts).map (·.
 
 end Panrpc.Bc
 
+#print axioms Panrpc.Bc.C19_model_atomicity
 #print axioms Panrpc.Bc.C19_no_panic
 #print axioms Panrpc.Bc.C19_at_most_one_receiver
 #print axioms Panrpc.Bc.C19_no_cross_key
